@@ -110,14 +110,14 @@ def has_mod(c, role):
 
 def instantiate(ctx, cases):
     """Choose concrete jq filters for the abstract option "jqFilter is set" and the cases that go through a real hook
-    process. quick: one filter pair per case, rotating through the catalogue (offset by the seed); thorough: every
-    case with two filter pairs, so every filter meets every context shape many times.  Where the case modifies an
+    process: every case gets two filter pairs, rotating through the catalogue (offset by the seed), so every filter
+    meets every context shape many times.  Where the case modifies an
     object of a binding, three of four instances use an object-valued filter for that binding: with finding F12 open
     the informer does not see a change of a result that is not an object, and the case could not be steered."""
     out = []
     n = len(CATALOGUE)
     objs = [f for f, _ in CATALOGUE if f in OBJECT_VALUED]
-    reps = ctx.pick(1, 2)
+    reps = 2
     file_every = ctx.pick(23, 11)
     for i, c in enumerate(cases):
         for rep in range(reps):
@@ -195,8 +195,11 @@ def replay_one(ctx, binary):
     if not c:
         raise Infra("replay file has no case")
     res = run_cases(ctx, binary, [c])[0]
+    if res.get("sig", "").startswith("INFRA/"):
+        raise Infra("the stored case could not be executed: %s" % res.get("detail"))
     if not res["ok"]:
-        ctx.fail(res["sig"], res["detail"], {"case": c, "rendered": res.get("rendered")})
+        for s, d in [(res["sig"], res["detail"])] + [(m["sig"], m["detail"]) for m in res.get("more", [])]:
+            ctx.fail(s, d, {"case": c, "rendered": res.get("rendered")})
     ctx.cov["traces_validated_against_impl"] = 1
     ctx.cov["evaluations"] = 1
     ctx.cov["distinct_nontrivial"] = 1
